@@ -2,6 +2,8 @@ package eng
 
 import (
 	"fmt"
+	"go/token"
+	"go/types"
 	"sort"
 
 	"golang.org/x/tools/go/ssa"
@@ -12,9 +14,19 @@ import (
 // the last input read).
 type TSConfig struct {
 	A, B, C, D int64
+	// E identifies a function-value binding (index+1 into TS.binds; 0 = none): the function a
+	// call result or phi of function type is known to hold on this path, so that a dispatch
+	// through a returned or selected method value is followed like a static call.
+	E int64
 }
 
-func (c TSConfig) String() string { return fmt.Sprintf("(%d,%d,%d,%d)", c.A, c.B, c.C, c.D) }
+func (c TSConfig) String() string { return fmt.Sprintf("(%d,%d,%d,%d,%d)", c.A, c.B, c.C, c.D, c.E) }
+
+// tsBind: SSA value val holds function fn (nil: the nil function) on the current path.
+type tsBind struct {
+	val ssa.Value
+	fn  *ssa.Function
+}
 
 // TSModel supplies the transfer functions of a typestate analysis.
 type TSModel interface {
@@ -41,6 +53,61 @@ type TS struct {
 	Exits    map[*ssa.Return]map[TSConfig]bool
 	Steps    int
 	Recursed []string
+	binds    []tsBind
+}
+
+func (t *TS) bindID(v ssa.Value, fn *ssa.Function) int64 {
+	for i, b := range t.binds {
+		if b.val == v && b.fn == fn {
+			return int64(i + 1)
+		}
+	}
+	t.binds = append(t.binds, tsBind{v, fn})
+	return int64(len(t.binds))
+}
+
+func (t *TS) binding(id int64) (tsBind, bool) {
+	if id <= 0 || int(id) > len(t.binds) {
+		return tsBind{}, false
+	}
+	return t.binds[id-1], true
+}
+
+// FuncValueOf resolves a value that denotes one particular function: a function, a closure,
+// a method value (the method behind the bound-method wrapper) or the nil function.
+func FuncValueOf(v ssa.Value) (fn *ssa.Function, isNil, ok bool) {
+	switch x := StripConv(v).(type) {
+	case *ssa.Function:
+		return UnwrapBound(x), false, true
+	case *ssa.MakeClosure:
+		if f, isF := x.Fn.(*ssa.Function); isF {
+			return UnwrapBound(f), false, true
+		}
+	case *ssa.Const:
+		if x.IsNil() {
+			return nil, true, true
+		}
+	}
+	return nil, false, false
+}
+
+// UnwrapBound maps a synthetic bound-method wrapper or thunk to the method it calls.
+func UnwrapBound(f *ssa.Function) *ssa.Function {
+	if f == nil || f.Synthetic == "" || f.Parent() != nil || len(f.Blocks) != 1 {
+		return f
+	}
+	var callee *ssa.Function
+	n := 0
+	for _, in := range f.Blocks[0].Instrs {
+		if c, ok := in.(*ssa.Call); ok {
+			n++
+			callee = c.Common().StaticCallee()
+		}
+	}
+	if n == 1 && callee != nil {
+		return callee
+	}
+	return f
 }
 
 type tsKey struct {
@@ -127,10 +194,27 @@ func (t *TS) Exec(fn *ssa.Function, entry TSConfig) []TSConfig {
 					terminated = true
 					continue
 				case *ssa.Call:
-					if g := StaticCallee(x.Common()); g != nil && t.M.Descend(g) {
-						t.Exec(g, c)
-						for _, e := range t.exitsOf[tsKey{g, c}] {
+					g := UnwrapBound(StaticCallee(x.Common()))
+					if g == nil && !x.Call.IsInvoke() {
+						// a call through a function value bound on this path
+						if b, ok := t.binding(c.E); ok && b.val == x.Call.Value {
+							if b.fn == nil {
+								continue // calling the nil function panics: no successor
+							}
+							g = b.fn
+						}
+					}
+					if g != nil && t.M.Descend(g) {
+						c0 := c
+						c0.E = 0
+						t.Exec(g, c0)
+						returnsFunc := false
+						if sig := g.Signature; sig.Results().Len() == 1 {
+							_, returnsFunc = sig.Results().At(0).Type().Underlying().(*types.Signature)
+						}
+						for _, e := range t.exitsOf[tsKey{g, c0}] {
 							ns := tsState{c: e.c, p: st.p}
+							ns.c.E = c.E
 							// constant boolean results
 							if e.ret != nil {
 								res := ReturnResults(e.ret)
@@ -143,12 +227,22 @@ func (t *TS) Exec(fn *ssa.Function, entry TSConfig) []TSConfig {
 										// for tuples keep the last bool (the conventional ok flag)
 									}
 								}
+								if returnsFunc && len(res) == 1 {
+									if fv, _, ok := FuncValueOf(res[0]); ok {
+										ns.c.E = t.bindID(x, fv)
+									} else if c.E != 0 {
+										if b, ok := t.binding(c.E); ok && b.val == ssa.Value(x) {
+											ns.c.E = 0
+										}
+									}
+								}
 							}
 							next = append(next, ns)
 						}
-						if len(t.exitsOf[tsKey{g, c}]) == 0 {
+						if len(t.exitsOf[tsKey{g, c0}]) == 0 {
 							// recursion in progress or no exits recorded: fall back to configs
-							for _, ec := range t.memo[tsKey{g, c}] {
+							for _, ec := range t.memo[tsKey{g, c0}] {
+								ec.E = c.E
 								next = append(next, tsState{c: ec, p: st.p})
 							}
 						}
@@ -178,10 +272,43 @@ func (t *TS) Exec(fn *ssa.Function, entry TSConfig) []TSConfig {
 							}
 						}
 					}
+					// a bound function value compared with nil
+					if b, has := t.binding(nc.E); has {
+						if r, ok := EdgeRel(it.b, k); ok {
+							x, y := StripConv(r.X), StripConv(r.Y)
+							if IsNilConst(x) {
+								x, y = y, x
+							}
+							if IsNilConst(y) && x == b.val {
+								if (r.Op == token.EQL) != (b.fn == nil) && (r.Op == token.EQL || r.Op == token.NEQ) {
+									continue
+								}
+							}
+						}
+					}
 					var ok bool
 					nc, ok = t.M.Refine(it.b, k, nc)
 					if !ok {
 						continue
+					}
+				}
+				// function-typed phis of the successor: bind the value selected by this edge
+				for _, pin := range s.Instrs {
+					phi, isPhi := pin.(*ssa.Phi)
+					if !isPhi {
+						break
+					}
+					if _, isSig := phi.Type().Underlying().(*types.Signature); !isSig {
+						continue
+					}
+					for pi, pred := range s.Preds {
+						if pred == it.b && pi < len(phi.Edges) {
+							if fv, _, ok := FuncValueOf(phi.Edges[pi]); ok {
+								nc.E = t.bindID(phi, fv)
+							} else if b, has := t.binding(nc.E); has && b.val == ssa.Value(phi) {
+								nc.E = 0
+							}
+						}
 					}
 				}
 				ni := item{s, nc}
